@@ -12,10 +12,12 @@ open Verif.Props.C05B
 #print axioms dimension_value_ok
 #print axioms dimension_written
 #print axioms dimension_text_ok
-#print axioms dimension_text_counterexample
+#print axioms dimension_text_full
 #print axioms color_attr_ok
 #print axioms attr_value_partial
-#print axioms attr_value_counterexample
-#print axioms text_chars_counterexample
+#print axioms text_cdend_ok
+#print axioms text_no_cdend
+#print axioms text_cdend_content
+#print axioms bracket_count_ok
 #print axioms foreign_object_verbatim
 #print axioms pi_verbatim
